@@ -30,10 +30,12 @@ Spec == Init /\ [][Next]_vars
 \* a call that is wrong as program text, whatever the secret values (Python itself rejects it):
 \* constant zero divisor, negative constant shift count or exponent
 A2(e) == e.args[2][1]
+\* ... or a method of traced objects called on a plain Python number (e.g. on the int 0 that x >> bitlength returns): a type error
 TextError(e) ==
-    /\ e.op = "bin" /\ Len(e.args) = 2 /\ Len(e.args[2]) = 1 /\ A2(e).k \in {"pyint", "pybool", "pyfloat"} /\ ~A2(e).w
-    /\ \/ e.name \in {"truediv", "floordiv", "mod", "divmod"} /\ A2(e).v = 0
-       \/ e.name \in {"lshift", "rshift", "pow"} /\ A2(e).v < 0
+    \/ /\ e.op = "bin" /\ Len(e.args) = 2 /\ Len(e.args[2]) = 1 /\ A2(e).k \in {"pyint", "pybool", "pyfloat"} /\ ~A2(e).w
+       /\ \/ e.name \in {"truediv", "floordiv", "mod", "divmod"} /\ A2(e).v = 0
+          \/ e.name \in {"lshift", "rshift", "pow"} /\ A2(e).v < 0
+    \/ /\ e.op = "meth" /\ Len(e.args) >= 1 /\ Len(e.args[1]) = 1 /\ e.args[1][1].k \in {"pyint", "pybool", "pyfloat"}
 
 \* --- inert: under a false guard no call of the body raises because of the values it meets
 Inv_Inert ==
